@@ -28,7 +28,7 @@ DOMAINS = [
     dict(name="gen-zones", tu="domall1", rel=True, wrapper_of="zones"),
     dict(name="ref-zones", tu="domall1", rel=True, wrapper_of="zones"),
     dict(name="oct", tu="domall2", rel=True),
-    dict(name="look-oct", tu="domall2", rel=True),
+    dict(name="look-oct", tu="domall2", rel=True, asc_widen=True),
     dict(name="term-itv", tu="domall2", rel=True),
     dict(name="term-zones", tu="domall2", rel=True),
     dict(name="term-dis", tu="domall2", rel=True),
@@ -64,11 +64,58 @@ def sizes(tier, prop):
     return {"C03": 6000, "C04": 5000, "C05": 2500, "C16": 3000}[prop]
 
 
+def norm_msg(out_lines):
+    """the CRAB_ERROR / assertion text of an aborted run, without process-specific parts"""
+    m = [x for x in out_lines if x and not x.startswith("R ")]
+    t = " ".join(m) if m else "no message (crash)"
+    a = re.search(r"(\w+\.hpp:\d+): .*Assertion [`'](.*?)' failed", t)
+    if a:
+        return "assertion `%s' failed at %s" % (a.group(2)[:160], a.group(1))
+    t = t[-400:]
+    t = re.sub(r"^.*?h-domall\d-\w+: ", "", t)
+    t = re.sub(r"/\S*/include/crab/", "crab/", t)
+    return t.strip()[:300]
+
+
 def run_cases(exe, mode, lines, path, timeout=900):
+    """run the harness on the cases; CRAB_ERROR / assert / crash end the process: the case
+    gets 'ABORT <message>' and the run restarts after it"""
     with open(path, "w") as f:
         f.write("\n".join(lines) + "\n")
-    res = vlib.run_harness_resilient(exe, ["--mode=" + mode], path, len(lines), timeout)
-    return [res.get(i, "MISSING") for i in range(len(lines))]
+    res = {}
+    start = 0
+    t0 = time.time()
+    n = len(lines)
+    while start < n and time.time() - t0 < timeout:
+        rc, out = vlib.sh([exe, "--mode=" + mode, path, str(start)], timeout=timeout)
+        last = start - 1
+        ol = out.split("\n")
+        for l in ol:
+            if l.startswith("R "):
+                sp = l.split(" ", 2)
+                try:
+                    i = int(sp[1])
+                except ValueError:
+                    continue
+                res[i] = sp[2] if len(sp) > 2 else ""
+                last = max(last, i)
+        if last + 1 >= n:
+            break
+        res[last + 1] = "ABORT " + ("timeout" if rc == 124 else norm_msg(ol))
+        start = last + 2
+    return [res.get(i, "MISSING") for i in range(n)]
+
+
+def abort_oracle(line, ans):
+    if ans.startswith("ABORT"):
+        return "step 0 (abort) of: %s: the domain aborted on an input inside the searched fragment: %s" % (line, abort_class(ans))
+    return None
+
+
+def abort_class(ans):
+    t = ans[6:]
+    t = re.sub(r"\bv\d+\b", "v_", t)
+    return t[:200]
 
 
 def shrink(exe, mode, line, oracle, kind, scratch, budget=40):
@@ -96,6 +143,9 @@ def shrink(exe, mode, line, oracle, kind, scratch, budget=40):
         cs = [c for c in cands(body, size) if c]
         if not cs:
             break
+        # the oracle samples its stores from a seed derived from the text: try each
+        # candidate also with one and two trailing no-op queries
+        cs = [c + extra for c in cs for extra in ([], ["q_at 0"], ["q_at 0", "q_at 0"])]
         lines = [head + " ; " + " ; ".join(c) for c in cs]
         answers = run_cases(exe, mode, lines, scratch, timeout=120)
         hit = None
@@ -104,17 +154,26 @@ def shrink(exe, mode, line, oracle, kind, scratch, budget=40):
                 w = oracle(l, a)
             except Exception:
                 w = None
-            if w and X.kind_of(w) == kind:
+            if w and kind_of(w) == kind:
                 hit = (c, w)
                 break
         if hit:
             body, best_w = hit
+            while len(body) > 1 and body[-1] == "q_at 0" and body[-2] == "q_at 0" and len(body) > 2 and body[-3] == "q_at 0":
+                body = body[:-1]
             size = max(1, min(size, len(body) // 2))
         elif size > 1:
             size //= 2
         else:
             break
     return head + " ; " + " ; ".join(body), best_w
+
+
+def kind_of(w):
+    m = re.search(r"the domain aborted on an input inside the searched fragment: (.*)$", w)
+    if m:
+        return "abort:" + m.group(1)
+    return X.kind_of(w)
 
 
 def match_known(known, prop, stream, line, w):
@@ -132,16 +191,19 @@ def match_known(known, prop, stream, line, w):
     return None
 
 
-def examine(rep, prop, dom, exe, stream, lines, answers, oracle, st, known, shrink_ok=True):
+def examine(rep, prop, dom, exe, stream, lines, answers, oracle, st, known, shrink_ok=True, report_aborts=True):
     """oracle on every case; bucket the hits by (class of message, operation of the failing
     step); shrink a few per bucket; report"""
     d = os.path.join(vlib.VERIF, "out", prop)
     buckets = {}
     for i, (l, a) in enumerate(zip(lines, answers)):
-        if a in ("ABORT", "MISSING"):
+        if a.startswith("ABORT") or a == "MISSING":
             st["aborts"] += 1
-            if len(st.setdefault("abort_samples", [])) < 3:
-                st["abort_samples"].append(l)
+            c = abort_class(a)
+            st.setdefault("abort_classes", {})
+            st["abort_classes"][c] = st["abort_classes"].get(c, 0) + 1
+            if report_aborts:
+                buckets.setdefault(("abort:" + c, "abort"), []).append((l, a, abort_oracle(l, a)))
             continue
         try:
             w = oracle(l, a)
@@ -152,15 +214,15 @@ def examine(rep, prop, dom, exe, stream, lines, answers, oracle, st, known, shri
                 st["oracle_error_sample"] = "%r on %s -> %s" % (e, l, a[:200])
         if w:
             st["oracle_violations"] += 1
-            buckets.setdefault((X.kind_of(w), X.step_of(w)), []).append((l, a, w))
+            buckets.setdefault((kind_of(w), X.step_of(w)), []).append((l, a, w))
     nshrunk = 0
     for (kind, step), hits in sorted(buckets.items()):
         reported = set()
         for (l, a, w) in hits[:MAX_SHRINK_PER_BUCKET]:
             l2, w2 = l, w
-            if shrink_ok and nshrunk < MAX_BUCKETS_SHRUNK * MAX_SHRINK_PER_BUCKET:
+            if shrink_ok and kind != "nonstab" and nshrunk < MAX_BUCKETS_SHRUNK * MAX_SHRINK_PER_BUCKET:
                 nshrunk += 1
-                l2, w2 = shrink(exe, dom["name"], l, oracle, kind, os.path.join(d, stream + ".shrink"))
+                l2, w2 = shrink(exe, dom["name"], l, (abort_oracle if kind.startswith("abort:") else oracle), kind, os.path.join(d, stream + ".shrink"))
                 w2 = w2 or w
             if l2 in reported:
                 continue
@@ -202,9 +264,10 @@ def search(rep, tier, seed, prop, only=None, n=None, shrink_ok=True):
             rep.violation(stream + "-build", "witness search %s: %s" % (stream, err), False)
             continue
         big = False
-        lines = X.histories(seed + 1000 + (zlib_id(prop)), prop, n, big=big)
+        hopts = dict(drop=dom.get("drop", ()), asc_widen=dom.get("asc_widen", False))
+        lines = X.histories(seed + 1000 + (zlib_id(prop)), prop, n, big=big, **hopts)
         if tier != "quick" and not dom["rel"]:
-            lines += X.histories(seed + 2000, prop, n // 4, big=True)      # non-relational: arbitrary-precision bounds
+            lines += X.histories(seed + 2000, prop, n // 4, big=True, **hopts)      # non-relational: arbitrary-precision bounds
         orc = lambda l, a: X.oracle_ext(l, a, None, checks)
         answers = run_cases(exe, name, lines, os.path.join(outd, stream + ".cases"))
         st["cases"] += len(lines)
@@ -220,7 +283,7 @@ def search(rep, tier, seed, prop, only=None, n=None, shrink_ok=True):
             examine(rep, prop, dom, exe, stream, [x[0] for x in inj], ans2, orc, st, known, shrink_ok)
             diff = 0
             for (l, a), (l2, keep), a2 in zip(zip(lines, answers), inj, ans2):
-                if a in ("ABORT", "MISSING") or a2 in ("ABORT", "MISSING"):
+                if a.startswith("ABORT") or a2.startswith("ABORT") or "MISSING" in (a, a2):
                     continue
                 p2 = a2.split(" ; ")
                 if [p2[i] for i in keep if i < len(p2)] != a.split(" ; "):
@@ -232,32 +295,40 @@ def search(rep, tier, seed, prop, only=None, n=None, shrink_ok=True):
                 bl, ba = base_answers[w]
                 nd = 0
                 for l, a, b in zip(lines, answers, ba):
-                    if a != b and "ABORT" not in (a, b):
+                    if a != b and not a.startswith("ABORT") and not b.startswith("ABORT"):
                         nd += 1
                         st.setdefault("wrapper_differs_sample", l)
                 st["wrapper_differs_from_bare"] = nd
         if prop == "C05":
             # interval-shaped chains of the modelled domain, with its bound
             ch = domcommon.widen_chains(seed + 5, max(10, n // 3))
+            if dom.get("asc_widen"):
+                ch = [X.ascending_widen(l) for l in ch]
             ans = run_cases(exe, name, ch, os.path.join(outd, stream + "-chains.cases"))
             st["cases"] += len(ch)
             k = dom.get("k", 1)
-            examine(rep, prop, dom, exe, stream, ch, ans, lambda l, a: chain_oracle_k(l, a, k), st, known, shrink_ok=False)
+            examine(rep, prop, dom, exe, stream, ch, ans, lambda l, a: chain_oracle_k(l, a, k), st, known, shrink_ok)
             # relational chains, long enough to exceed the bound if the widening does not stabilise
             steps = 130 if tier == "quick" else 220
             rc = X.rel_chains(seed + 6, max(6, n // 6), steps, maxvars=(2 if k > 1 else 3))
+            if dom.get("asc_widen"):
+                rc = [X.ascending_widen(l) for l in rc]
             ans = run_cases(exe, name, rc, os.path.join(outd, stream + "-relchains.cases"))
             st["cases"] += len(rc)
             st["chain_steps"] = steps
-            examine(rep, prop, dom, exe, stream, rc, ans, lambda l, a: X.rel_chain_oracle(l, a, None, k), st, known, shrink_ok=False)
+            examine(rep, prop, dom, exe, stream, rc, ans, lambda l, a: X.rel_chain_oracle(l, a, None, k), st, known, shrink_ok)
         rep.cov["evaluations"] += st["cases"]
     rep.cov["search"]["wall_s"] = round(time.time() - t0, 1)
 
 
 def chain_oracle_k(line, ans, k):
-    if ans in ("ABORT", "MISSING"):
+    if ans.startswith("ABORT") or ans == "MISSING":
         return None
     w = domcommon.chain_oracle(line, ans)
+    if w and "second argument of a widening" in w:
+        # completeness of the inclusion test, not soundness of the widening (the result is
+        # checked on the stores): not required from the un-modelled domains
+        return None
     if w and "non-stationary" in w and k > 1:
         # fixed-tvpi keeps ghost dimensions x/2, x/3: re-evaluate with its own bound
         return X.rel_chain_oracle_interval(line, ans, k) if hasattr(X, "rel_chain_oracle_interval") else None
@@ -297,6 +368,10 @@ if __name__ == "__main__":
     ap.add_argument("--replay", help="a history (text) or a file holding one: run it on --dom, print every step with its answer")
     ap.add_argument("--shrink", action="store_true", help="with --replay: shrink first")
     a = ap.parse_args()
+    if os.environ.get("DOMALL_PRIVATE_BUILD", "1") == "1":
+        # exploration from the command line: a private build cache, so that concurrent checks
+        # (which prune build/impl-*) do not remove the tree being compiled
+        vlib.BUILD = os.path.join(vlib.VERIF, "build", "domall-scratch")
     if a.replay:
         line = open(a.replay).read().strip().split("\n")[0] if os.path.exists(a.replay) else a.replay
         for dn in a.dom.split(","):
@@ -305,22 +380,22 @@ if __name__ == "__main__":
             sc = os.path.join(vlib.VERIF, "out", "replay-%s.cases" % dn)
             orc = lambda l, x: (X.rel_chain_oracle(l, x, None, dom.get("k", 1)) if a.prop == "C05" and "q_leq 0 2" in l else X.oracle_ext(l, x, None, CHECKS[a.prop]))
             ans = run_cases(exe, dn, [line], sc)[0]
-            w = orc(line, ans)
+            w = orc(line, ans) or abort_oracle(line, ans)
             if a.shrink and w:
-                line, w = shrink(exe, dn, line, orc, X.kind_of(w), sc + ".s")
+                line, w = shrink(exe, dn, line, (abort_oracle if ans.startswith("ABORT") else orc), kind_of(w), sc + ".s")
                 ans = run_cases(exe, dn, [line], sc)[0]
             print("== %s" % dn)
             print(line)
             parts = ans.split(" ; ")
             for i, o in enumerate(line.split(" ; ")[1:]):
                 print("%3d  %-60s -> %s" % (i + 1, o, parts[i] if i < len(parts) else "?"))
-            if ans in ("ABORT", "MISSING"):
-                print(ans, vlib.sh([exe, "--mode=" + dn, sc])[1][-300:])
+            if ans.startswith("ABORT"):
+                print(ans)
                 ol = line.split(" ; ")
                 pre = [" ; ".join(ol[:j]) for j in range(2, len(ol) + 1)]
                 pa = run_cases(exe, dn, pre, sc)
                 for j, x in enumerate(pa):
-                    if x in ("ABORT", "MISSING"):
+                    if x.startswith("ABORT"):
                         print("first aborting prefix ends at step %d (%s); answers before: %s" % (j + 1, ol[j + 1], pa[j - 1] if j else ""))
                         break
             print("oracle:", w)
